@@ -279,7 +279,9 @@ def check_sequence(ctx, rng, algtext):
         for i in range(n):
             ctx.count("mon.multi_envelope")
             m, _ = GM.gen_message(rng, kind="response", size="small")
-            w = sign_with_lib(m, key, clock, req_mac if i == 0 else b"", multi=True, ctx=ctxl)
+            # the original id the signer digested may differ from the header id (a forwarder re-numbered the message)
+            oid_l = rng.randrange(65536) if rng.random() < 0.5 else None
+            w = sign_with_lib(m, key, clock, req_mac if i == 0 else b"", orig_id=oid_l, multi=True, ctx=ctxl)
             ctxl = m.tsig_ctx
             s = RT.Split(w)
             want = RT.mac(algtext, secret, RT.digest_input(s, request_mac=req_mac) if i == 0 else RT.digest_input(s, prior_mac=prior, timers_only=True))
@@ -325,6 +327,9 @@ def check_sequence(ctx, rng, algtext):
                 continue
             oid = struct.unpack("!H", base[:2])[0]
             stripped = base
+            if rng.random() < 0.5:
+                oid = rng.randrange(65536)  # header id differs from the TSIG original id: the digest covers the original id
+                stripped = struct.pack("!H", oid) + base[2:]
             if i == 0:
                 data = struct.pack("!H", len(req_mac)) + req_mac + stripped + RT.tsig_vars(kl, 0, RT.alg_labels(algtext), now, 300, 0, b"")
             else:
